@@ -88,6 +88,13 @@ def cases(draw, tier="quick"):
         delimiters = list(draw(st.permutations(["#", "/", "_"])))
     else:
         delimiters = draw(st.lists(st.sampled_from(DELIMS_ALL), unique=True, min_size=1, max_size=4))
+    if draw(st.integers(0, 5)) == 0:
+        # overlapping occurrences of a multi-character delimiter right before the identifier ("x_" + "__" + "1" = "x___1"):
+        # the split must be at the LAST occurrence
+        dl, stem = draw(st.sampled_from([("__", "http://x_"), ("__", "http://y__a_"), ("//", "http://x/"), ("/#/", "urn:a/#"), ("::", "urn:b:")]))
+        for t in draw(st.lists(st.sampled_from(["1", "abc", "A1", "22"]), unique=True, min_size=1, max_size=3)):
+            uris.append(stem + dl + t)
+        delimiters = [dl] + [x for x in (delimiters or []) if x != dl][:2]
     cutoff = draw(st.sampled_from([None, None, 0, 1, 2, 3, 4]))
     metaprefix = draw(st.sampled_from(["ns", "ns", "p", "", "x.", "ns1", "é", " ns", "ns\u00a0"]))
     conv = None
